@@ -148,3 +148,127 @@ Proof.
   cbn [apply_op]. destruct (lookup m p) as [[|c]|]; try discriminate.
   intro H. injection H as <-. intro r. apply lookup_remove.
 Qed.
+
+(* ------------------------------------------------ one entry per path *)
+Lemma lookup_In m p n : lookup m p = Some n -> In (p, n) m.
+Proof.
+  induction m as [|[q x] m IH]; cbn [lookup]; intro H; [discriminate|].
+  destruct (path_eqb q p) eqn:E.
+  - apply path_eqb_eq in E. subst. injection H as <-. left. reflexivity.
+  - right. exact (IH H).
+Qed.
+
+Lemma lookup_None_notin m p : lookup m p = None -> ~ In p (map fst m).
+Proof.
+  induction m as [|[q x] m IH]; cbn [lookup map fst In]; intros H Hin; [exact Hin|].
+  destruct (path_eqb q p) eqn:E; [discriminate|].
+  destruct Hin as [->|Hin]; [rewrite path_eqb_refl in E; discriminate|exact (IH H Hin)].
+Qed.
+
+Lemma In_lookup m p n : NoDup (map fst m) -> In (p, n) m -> lookup m p = Some n.
+Proof.
+  induction m as [|[q x] m IH]; cbn [map fst In lookup]; intros Hnd Hin; [destruct Hin|].
+  inversion Hnd as [|? ? Hq Hm]; subst.
+  destruct Hin as [E|Hin].
+  - injection E as -> ->. rewrite path_eqb_refl. reflexivity.
+  - destruct (path_eqb q p) eqn:E; [|exact (IH Hm Hin)].
+    apply path_eqb_eq in E. subst q. exfalso. apply Hq. apply in_map_iff.
+    exists (p, n). split; [reflexivity|exact Hin].
+Qed.
+
+Lemma In_keys_lookup m p : In p (map fst m) -> exists n, lookup m p = Some n.
+Proof.
+  induction m as [|[q x] m IH]; cbn [map fst In lookup]; intro H; [destruct H|].
+  destruct (path_eqb q p) eqn:E; [exists x; reflexivity|].
+  destruct H as [->|H]; [rewrite path_eqb_refl in E; discriminate|exact (IH H)].
+Qed.
+
+Lemma keys_remove m p q : In q (map fst (remove m p)) <-> In q (map fst m) /\ q <> p.
+Proof.
+  unfold remove. rewrite !in_map_iff. split.
+  - intros [e [He Hin]]. apply filter_In in Hin as [Hin Hne]. split; [exists e; split; assumption|].
+    intro E. subst. cbn in Hne. rewrite path_eqb_refl in Hne. discriminate.
+  - intros [[e [He Hin]] Hne]. exists e. split; [exact He|]. apply filter_In. split; [exact Hin|].
+    rewrite He. rewrite path_eqb_neq by exact Hne. reflexivity.
+Qed.
+
+Lemma nodup_remove m p : NoDup (map fst m) -> NoDup (map fst (remove m p)).
+Proof.
+  unfold remove. induction m as [|[q x] m IH]; cbn [filter map fst]; intro H; [constructor|].
+  inversion H as [|? ? Hq Hm]; subst.
+  destruct (negb (path_eqb q p)); cbn [map fst]; [|exact (IH Hm)].
+  constructor; [|exact (IH Hm)]. intro Hin. apply Hq.
+  apply in_map_iff in Hin as [e [He Hin]]. apply filter_In in Hin as [Hin _].
+  apply in_map_iff. exists e. split; assumption.
+Qed.
+
+Lemma nodup_snoc {A} (l : list A) x : NoDup l -> ~ In x l -> NoDup (l ++ [x]).
+Proof.
+  induction l as [|y l IH]; cbn [app]; intros H Hx.
+  - constructor; [intros []|constructor].
+  - inversion H as [|? ? Hy Hl]; subst. constructor.
+    + intro Hin. apply in_app_or in Hin as [Hin|[<-|[]]]; [contradiction|].
+      apply Hx. left. reflexivity.
+    + apply IH; [exact Hl|]. intro Hin. apply Hx. right. exact Hin.
+Qed.
+
+Lemma nodup_add m p n : NoDup (map fst m) -> NoDup (map fst (add m p n)).
+Proof.
+  intro H. unfold add. rewrite map_app. cbn [map fst]. apply nodup_snoc.
+  - exact (nodup_remove m p H).
+  - intro Hin. apply keys_remove in Hin as [_ Hne]. exact (Hne eq_refl).
+Qed.
+
+Lemma keys_replace m p n : map fst (replace m p n) = map fst m.
+Proof.
+  induction m as [|[q x] m IH]; cbn [replace map fst]; [reflexivity|].
+  destruct (path_eqb q p); cbn [map fst]; [reflexivity|]. rewrite IH. reflexivity.
+Qed.
+
+(* ------------------------------------------- renaming a folder directory *)
+Definition move_entry := move_path.
+
+Lemma rename_dir_map lay m a b :
+  rename_dir lay m a b = map (fun e => (move_entry lay a b (fst e), snd e)) m.
+Proof.
+  unfold rename_dir, move_entry, move_path. apply map_ext. intros [p n]. cbn [fst snd].
+  destruct (moved_folder lay a b (folder_of p)); reflexivity.
+Qed.
+
+Lemma lookup_map_inj (phi : path -> path) (m : fs) p :
+  (forall q, In q (map fst m) -> phi q = phi p -> q = p) ->
+  lookup (map (fun e => (phi (fst e), snd e)) m) (phi p) = lookup m p.
+Proof.
+  induction m as [|[q x] m IH]; cbn [map fst snd lookup]; intro H; [reflexivity|].
+  destruct (path_eqb q p) eqn:E.
+  - apply path_eqb_eq in E. subst q. rewrite path_eqb_refl. reflexivity.
+  - destruct (path_eqb (phi q) (phi p)) eqn:E2.
+    + apply path_eqb_eq in E2. rewrite (H q (or_introl eq_refl) E2), path_eqb_refl in E.
+      discriminate.
+    + apply IH. intros q' Hq'. apply H. right. exact Hq'.
+Qed.
+
+Lemma lookup_map_some (phi : path -> path) (m : fs) q n :
+  lookup (map (fun e => (phi (fst e), snd e)) m) q = Some n ->
+  exists p, In (p, n) m /\ phi p = q.
+Proof.
+  induction m as [|[r x] m IH]; cbn [map fst snd lookup]; intro H; [discriminate|].
+  destruct (path_eqb (phi r) q) eqn:E.
+  - apply path_eqb_eq in E. injection H as <-. exists r. split; [left; reflexivity|exact E].
+  - destruct (IH H) as [p [Hin Hp]]. exists p. split; [right; exact Hin|exact Hp].
+Qed.
+
+Lemma nodup_map_inj (phi : path -> path) (m : fs) :
+  NoDup (map fst m) ->
+  (forall p q, In p (map fst m) -> In q (map fst m) -> phi p = phi q -> p = q) ->
+  NoDup (map fst (map (fun e => (phi (fst e), snd e)) m)).
+Proof.
+  induction m as [|[r x] m IH]; cbn [map fst snd]; intros Hnd Hinj; [constructor|].
+  inversion Hnd as [|? ? Hr Hm]; subst. constructor.
+  - intro Hin. rewrite map_map in Hin. cbn [fst] in Hin.
+    apply in_map_iff in Hin as [e [He Hin]].
+    assert (fst e = r).
+    { apply Hinj; [right; apply in_map; exact Hin|left; reflexivity|exact He]. }
+    apply Hr. subst r. apply in_map. exact Hin.
+  - apply IH; [exact Hm|]. intros p q Hp Hq. apply Hinj; right; assumption.
+Qed.
